@@ -2,6 +2,7 @@ import Driver.Proto
 import Driver.Codec
 import Driver.Conv
 import Driver.Pool
+import Driver.Stream
 
 open Driver
 
@@ -10,6 +11,7 @@ def dispatch (c : Case) : Verdict :=
   if fam.startsWith "hex" || fam.startsWith "b64" || fam == "blk.enc" || fam == "blk.dec" then Driver.Codec.handle c
   else if fam == "conv" || fam == "blk.conv" || fam == "reval" then Driver.Conv.handle c
   else if fam == "hist" then Driver.Pool.handle c
+  else if fam == "sshist" || fam == "ssfault" then Driver.Stream.handle c
   else { corr := false, why := "no handler for op " ++ c.op }
 
 structure Stats where
